@@ -8,6 +8,8 @@ for sid in sorted(os.listdir(base)):
     if not os.path.isdir(d) or not os.path.exists(f'{d}/confirm.json'):
         continue
     c = json.load(open(f'{d}/confirm.json'))
+    if c.get('kind') == 'benign':
+        continue
     det = json.load(open(f'{d}/detection.json')) if os.path.exists(f'{d}/detection.json') else {}
     n = NEEDS.get(sid, {})
     caught = sorted({k for tier in det.values() for k, v in tier.items() if v['exit'] == 1 and v['violations'] > 0})
